@@ -323,6 +323,12 @@ X_Line(e) == Ok(e) /\ LineAccept(e.r, e.a.moves, e.a.end)
 \* ---- C14 ------------------------------------------------------------------
 X_Corridor(e) == Ok(e) /\ CorridorAccept(e.r.rm, e.r.rs, e.a.L, e.a.fitH, e.a.fitV, e.a.zeroRadius, e.a.far, e.a.mod)
 \* negative radius, invalid zoom, nil point: an error and no result
+\* r = <<layers for clearance c, layers for the larger clearance c2>>, each <<east-west, north-south>>
+X_Fit(e) == /\ Ok(e)
+            /\ FitAccept(e.r[1][1], e.a.c, e.a.gh) /\ FitAccept(e.r[1][2], e.a.c, e.a.gv)
+            /\ FitAccept(e.r[2][1], e.a.c2, e.a.gh) /\ FitAccept(e.r[2][2], e.a.c2, e.a.gv)
+            /\ FitMonotone(e.r[1], e.r[2])
+            /\ (e.a.c = 0 => e.r[1] = <<0, 0>>)
 X_CorridorInvalid(e) == Err(e) /\ e.r = 0
 
 \* ---- C16 ------------------------------------------------------------------
@@ -463,6 +469,7 @@ Explains(e) ==
       [] e.op \in {"Line", "LineSp"}   -> X_Line(e)
       [] e.op = "Corridor"             -> X_Corridor(e)
       [] e.op = "CorridorInvalid"      -> X_CorridorInvalid(e)
+      [] e.op = "Fit"                  -> X_Fit(e)
       [] e.op = "Determ"               -> X_Determ(e)
       [] e.op = "Invalid"              -> X_Invalid(e)
       [] e.op = "PointStore"           -> X_PointStore(e)
@@ -540,6 +547,7 @@ Expected(e) ==
                                                           ~WithinLayers(p, Range(e.a.L), e.a.fitH, e.a.fitV, e.a.mod)},
                                          far |-> e.a.far]
     [] e.op = "CorridorInvalid"      -> "error"
+    [] e.op = "Fit"                  -> "each layer count L: c <= gaps[L+1] (+tol); monotone in c; (0, 0) for clearance 0"
     [] e.op = "Determ"               -> [differing |-> {e.a.labels[i] : i \in {j \in 1..Len(e.r) : SetOfSeq(e.r[j]) # SetOfSeq(e.r[1])}},
                                          duplicates |-> {e.a.labels[i] : i \in {j \in 1..Len(e.r) : ~DupFree(e.r[j])}}]
     [] e.op = "Invalid"              -> [refused |-> Refused(FnByName(e.a.fn), e.a.cv), kind |-> FnByName(e.a.fn).kind]
